@@ -61,7 +61,7 @@ slice_('Seek'); slice_('SeekForward', replace=['SliceReader_Position']); slice_(
 slice_('Slice2', replace=['SliceReader_ctor']); slice_('Slice1', replace=['SliceReader_Slice2', 'SliceReader_Position', 'SliceReader_SeekForward'])
 
 # ---- U-BIDI
-RD = ['Rd_Read', 'Rd_ReadPartial', 'Rd_Length', 'Rd_Position', 'Rd_Seek', 'Rd_SeekForward', 'Rd_SeekBackward']
+RD = ['Rd_Read', 'Rd_ReadRec8', 'Rd_ReadRec16', 'Rd_ReadRec24', 'Rd_ReadPartial', 'Rd_Length', 'Rd_Position', 'Rd_Seek', 'Rd_SeekForward', 'Rd_SeekBackward']
 KR_TRUST = 'K_R (contracts/kr.h) as the contract of the abstract Stream::Reader interface: proved for MemoryReader and SliceReader<W>; virtual dispatch bound statically to the contract'
 G('bidi.Read', ['C12'], 'bidi', 'Reader_Read', replace=RD, trusted=[KR_TRUST])
 G('bidi.Peek', ['C12', 'C09'], 'bidi', 'BidirectionalReader_Peek', replace=RD, trusted=[KR_TRUST])
@@ -261,3 +261,31 @@ for fn_, rc_ in (('WriteImplementation', EXC2), ('Length', NOEXC), ('Position', 
 G('filew.TranslateFlags', ['C14'], 'filew', 'FileWriter_TranslateFlags', replace=['XFile_PathExists'], reach=EXC2, replay={'driver': 'filew_replay.cpp', 'case': 'flags'},
   trusted=['C++ open-mode table and libstdc++ openmode values (contracts/filew.contracts); XFile::PathExists as an uninterpreted deterministic predicate'],
   what='all 16 flag combinations x file exists/does not exist')
+
+# ---- U-VOLW (C01, C02, C20, C18)
+VOL_TRUST = ['std::vector<IndexEntry>::push_back, OpenAllInputFiles (stream j has length S_j), XFile::PathsAreEqual, FileWriter constructor: assumed contracts in contracts/volw.contracts',
+             'format description carried by ghost arrays satisfying the layout recurrences (spec domain: <= 65536 members, sizes <= 2^40, name lengths <= 2^32)']
+G('volw.SectionHeader_ctor3', ['C02', 'C18', 'C01'], 'volw', 'VolSectionHeader_ctor3', reach=NOEXC, what='8 serialised bytes: tag, length in bits 0..30, padding flag in bit 31')
+G('volw.fileCount', ['C01'], 'volw', 'CreateVolumeInfo_fileCount', reach=NOEXC)
+G('volw.PrepareHeader', ['C20', 'C01', 'C02'], 'volw', 'VolFile_PrepareHeader', solver='cvc5', reach=EXC2, timeout=1200, flags=['--object-bits', '12'],
+  replace=['VolFile_OpenAllInputFiles', 'vec_VolIndexEntry_push_back', 'Rf_Length', 'CreateVolumeInfo_fileCount'], trusted=VOL_TRUST, replay={'driver': 'vol_replay.cpp', 'case': 'PrepareHeader'},
+  what='every size, name offset, table length and block offset equals the format description as a mathematical integer (so fits its field) or the call throws')
+
+# ---- U-CLM (C03, C05, C18, C20)
+def clm(fn, props, reach=NOEXC, replace=(), **kw):
+    G('clm.' + fn, props, 'clm', fn, replace=list(replace), reach=reach, **kw)
+clm('WaveHeader_Create', ['C03', 'C18'], what='canonical 46-byte WAV header; chunkSize + 8 == 46 + dataLength')
+clm('ClmHeader_MakeHeader', ['C03', 'C18']); clm('ClmHeader_CheckFileVersion', ['C03', 'C05']); clm('ClmHeader_CheckUnknown', ['C03', 'C05'])
+clm('ClmHeader_VerifyFileVersion', ['C03', 'C05'], reach=EXC2, replace=['ClmHeader_CheckFileVersion']); clm('ClmHeader_VerifyUnknown', ['C03', 'C05'], reach=EXC2, replace=['ClmHeader_CheckUnknown'])
+clm('ClmFile_FindChunk', ['C05', 'C03'], reach=EXC2, replace=RD, trusted=[KR_TRUST], timeout=900, replay={'driver': 'clm_replay.cpp', 'case': 'FindChunk'},
+    what='WAV chunk walk on arbitrary bytes: memory safe, terminates (decreases fileSize - cursor), returns the length of a chunk carrying the tag')
+REL('clm', 'WaveHeader_Create', 'value', 'WaveHeader', nbytes=46, props=('C18', 'C03'))
+REL('clm', 'ClmHeader_MakeHeader', 'value', 'ClmHeader', nbytes=60, props=('C18', 'C03'))
+claim('C04', 'Bit reader proved against the reference bit sequence (MSB-first, 0 beyond the end) with its shift-register invariant for any buffer length; position-code arithmetic proved equal to the LZHUF d_code/d_len tables for all 256 values; GetRepeatOffset proved equal to the reference DecodePosition (lemma, any buffer/bit position) and < 4096; GetNextCode proved to terminate, stay inside the tree arrays and return a symbol < 314 (cvc5, quantified structural tree invariant); DecompressCode appends 1..60 bytes and never moves the read index; FillDecompressBuffer keeps the queue invariant (unread data never overwritten: the per-code precondition unread <= 4035 holds at every call) and terminates; CopyAvailableData / GetInternalBuffer deliver the oldest unread bytes in order and advance by exactly the count; adaptive-tree facts as in C15.',
+      'NOT decided: byte-exact equality of the decoded HISTORY with the reference decoder (ring contents vs history; match copy content), GetData outer loop, ExtractFileLzh, the encoder lemma. ASSUMED: UpdateCodeCount preserves the structural tree invariant for T = 314 (proved only for T <= 6).')
+claim('C03', 'WaveHeader::Create proved to build the canonical 46-byte header (all fields, cbSize 0, chunkSize + 8 = 46 + D) and ClmHeader::MakeHeader the canonical CLM header; version/unknown-field checks proved; FindChunk proved memory safe and terminating on arbitrary bytes over any K_R stream (64-bit cursor, decreases fileSize - cursor); both headers proved deterministic (two-run); the reader-to-writer copy loop proved to transfer exactly the remaining bytes.',
+      'NOT decided: ReadAllWaveHeaders, PrepareIndex offsets, WriteArchive (copies to end of stream rather than dataLength bytes - suspected defect D10 not yet examined by a check), CompareWaveFormats (proof attempt timed out), ReadHeader/OpenStream/ExtractFile, name rules; XFile/std::sort.')
+NOT_DECIDED.update({
+ 'C04': ['history-level equality with the reference decoder (ring/queue content), GetData, ExtractFileLzh, encoder-side lemma', 'tree invariant preservation for T=314 (assumed)'],
+ 'C03': ['ReadAllWaveHeaders, PrepareIndex, WriteArchive (D10 suspected, unexamined), CompareWaveFormats (timeout), reader side, name rules'],
+})
